@@ -4,6 +4,7 @@ mod world;
 mod hooks;
 mod actors;
 mod netsim;
+mod hubsim;
 mod framework;
 mod scenario;
 mod props;
